@@ -389,10 +389,22 @@ def rcpthosts_init_sites(db, rep):
             if len(H.ends) != 1:
                 raise AnalysisBroken('rcpthosts_init: %d ends' % len(H.ends))
             end, val, tr = H.ends[0]
-            flag = _lt.one(end.get('S:rcpthosts_c:flagrh'))
-            if flag is None:
-                cands = [k for k in end if k.startswith('S:rcpthosts_c:') and 'flag' in k]
-                flag = _lt.one(end.get(cands[0])) if len(cands) == 1 else None
+            # what the start-up left behind is judged by what rcpthosts() then says about a domain that is listed nowhere
+            class RQ(_lt.SAConc, _lt.Conc):
+                def prim_constmap(self_, E, x, args):
+                    return [Outcome(ret=fs(0))]
+
+                def prim_cdb_seek(self_, E, x, args):
+                    return [Outcome(ret=fs(0))]
+            H2 = RQ('rcpthosts')
+            st2 = {k_: v_ for k_, v_ in end.items() if '::' not in k_}
+            st2.update({0: fs(('&', 'ADDR[0]')), 1: fs(len(b'u@elsewhere.example'))})
+            st2.update(_lt.conc_string_cells('ADDR', b'u@elsewhere.example'))
+            _lt._run_conc(db, rep, prog, db.fn('rcpthosts.c', 'rcpthosts'), st2, 'rcpthosts', H2)
+            if len(H2.ends) != 1:
+                raise AnalysisBroken('rcpthosts() after rcpthosts_init: %d ends' % len(H2.ends))
+            verdict = _lt.one(H2.ends[0][1])
+            flag = {1: 0, 0: 1, -1: -1}.get(verdict) if _lt.one(val) != -1 else -1        # accepted: the list is off; refused: in force
             if rf != 1:
                 want = (rf, rf, [])
             elif op == 'eio':
